@@ -83,10 +83,13 @@ Remap(tb, newBranch) == [t \in TxIds |->
 DupBelow(t, f, sh) == txb[t] # Null /\ txb[t] \in alive /\ f[txb[t]] /\ Height(txb[t]) <= sh
 
 (* ConfirmBlock of a new, well-formed block with parent p and user transactions txs.            *)
-(* Generator precondition (C04 quantifier): a transaction occurs at most once on a path.        *)
+(* Generator precondition: a transaction is repeated on a path only where the ledger is in charge of refusing it - the  *)
+(* block joins the main chain (it extends the tip or switches the trunk) and the earlier occurrence is in a block that  *)
+(* is on the main chain already (C03: "a transaction already on the main chain cannot be confirmed again below the fork *)
+(* point").  Repetitions inside a side branch are only met when the state machine plays the block.                      *)
 Confirm(p, txs) ==
   /\ n < MaxBlocks /\ p \in alive /\ NoDupSeq(txs)
-  /\ \A i \in DOMAIN txs : ~\E a \in Anc(p) : txs[i] \in TxsOf(a)
+  /\ \A i \in DOMAIN txs : \A a \in Anc(p) : txs[i] \in TxsOf(a) => (flag[a] /\ (p = tip \/ Height(p) + 1 > theight))
   /\ LET b  == n + 1
          h  == Height(p) + 1
          nb == [parent |-> p, height |-> h, txs |-> txs]
